@@ -11,7 +11,8 @@ Executable model of package fai (fai/fai.go, fai/file.go) — core Lean only.
 
 The model describes the code as it is now on /repo main, i.e. WITH the repairs fixes/C19-1 (blank lines are counted into the offset),
 fixes/C19-2 (Read at the end of the segment returns io.EOF before any position arithmetic) and
-fixes/C19-3 (no 64 KiB limit on the length of a line), and with C11's repairs d9ad7e9 (`position` returns Start
+fixes/C19-3 (no 64 KiB limit on the length of a line), fixes/C19-4 (a sequence line after a blank line is
+rejected), and with C11's repairs d9ad7e9 (`position` returns Start
 when BasesPerLine is 0) and 38c3f30 (`ReadFrom` validates every record: `RawRecord.isValid`).
 
 Conventions: bytes are `UInt8`, Go `int`/`int64` values are `Nat` (the code never produces negative ones;
@@ -109,8 +110,8 @@ def flush (st : ScanState) : Index × Record :=
 def step (st : ScanState) (line : Bytes) : Except IdxErr ScanState :=
   let b := trimSpace line
   if b = [] then
-    -- blank line: counted into the offset (fixes/C19-1), nothing else
-    .ok { st with offset := st.offset + line.length }
+    -- blank line: counted into the offset (fixes/C19-1); only a description line may follow (fixes/C19-4)
+    .ok { st with offset := st.offset + line.length, wantDescLine := true }
   else if b = [GT] then .error .missingName
   else if b.head? = some GT then
     let (idx, pend) := flush st
